@@ -5,18 +5,27 @@ ID = "C11"
 LEAN_PROPS = ["FcpptProofs.Props.C11"]
 HARNESS = {"src": "harness/c11.cpp"}
 TIE = ("hand-written pointer-store model (FcpptModel/Model/C11.lean, one definition per special member of intrusive::base / "
-       "intrusive::list, pointer write by pointer write) + differential correspondence on operation histories; every line "
-       "compares forward walk, backward walk, empty() and the raw prev_/next_ of every live node")
+       "intrusive::list and per member of intrusive::iterator, pointer write by pointer write; both operator()s of signal::object as "
+       "loops with effectful callbacks; owners of auto_connections) + differential correspondence on operation histories; every line "
+       "compares forward / backward walk (iterator and const_iterator, ++it, it++, --it, it--, operator->, the iterator's members called "
+       "directly), empty() and the raw prev_/next_ of every live node, the position of every iterator object; for signals what every "
+       "signal invokes, its result, the backward walk of connections(), the unregister counters and what each unregister function saw")
 RULE = ("history batches: `reset` + up to 30 (quick) / 50 (thorough) operations over <= 3 live lists / signals and <= 8 live "
         "elements / connections; after every operation both sides print the full observable state. An op is non-trivial if "
         "its dump shows at least one linked element / invoked callback; distinct = distinct (op, resulting state) pairs. "
-        "small-scope batches: every valid sequence of <= 3 operations (thorough: <= 4 for six of them) after each of nine start "
-        "scenarios, fresh ids canonical (exhaustive within that scope). Operation kinds generated: L E d u M A LM LA LD "
-        "(lists), SN PN SC PC SX SM SA SD call (signals); the weights are in the batch notes.")
+        "small-scope batches (exhaustive within their scope, fresh ids canonical): every valid sequence of <= 3 list operations after each "
+        "of nine start scenarios (thorough: <= 4 for six of them); iterators at every kind of position, every sequence of <= 2 list operations, "
+        "then every iterator operation on every surviving iterator and every comparable pair (incl. self-swap); every valid sequence of <= 3 "
+        "signal / owner operations after each of nine signal scenarios over the four instantiations int(int)|void(int) x signal::base|"
+        "unregister::base (thorough: <= 4 for six of them); every single and every pair of callback effects during a call; the deliberate "
+        "self-disconnect histories. Operation kinds: L E d u M A LM LA LD, IB IE CB CE IP CP IN CN IC IX I+ I- Ip Im I= IS I* (lists), "
+        "SN PN VN WN SC PC VC WC SX SM SA SD call vcall HA HW KP KO KE KC KA AN AR AK AC rcall rvcall (signals); weights in the batch notes.")
 ASSUMPTIONS = [
-    "the caller respects object lifetimes (constructors on fresh storage, members on live objects) - generator and driver enforce it",
-    "callbacks, combiners and unregister functions are pure apart from the log/counter the harness keeps; the theorems hold for every choice",
+    "the caller respects object lifetimes (constructors on fresh storage, members on live objects, no use of an iterator whose node was destroyed) - generator and driver enforce it",
+    "callbacks, combiners and unregister functions are pure apart from the log/counter the harness keeps and the effects set by AR/AK/AC; the theorems hold for every choice",
+    "no callback lets go of the connection it is running from (Spec.loopSafe): the library reads the destroyed hook in ++it - exercised on purpose by the batch signals-self-disconnect, where the model's fault:oob must meet AddressSanitizer's heap-use-after-free in iterator::increment",
     "a moved-from fcppt::function (std::function) is empty (libstdc++): calling a moved-from signal that has connections prints nocomb",
+    "std::vector destroys its elements front to back on clear() / destruction / move assignment, a moved-from vector is empty, self-move-assignment of std::optional<unique_ptr> is a no-op (libstdc++)",
 ]
 TRUSTED = ["harness/c11.cpp (incl. the read-only friend access to prev_/next_/head_) and the line protocol (vh.hpp, Proto.lean)",
            "g++ 12 + ASan/UBSan as witness for stale links actually followed by the real code"]
@@ -808,8 +817,13 @@ MANIFEST = {
                    "intrusive::base and intrusive::list pointer write by pointer write: for every history of valid operations the "
                    "store is the pointer image of a partition of the live nodes into rings (representation relation), hence every "
                    "live node's links are live and mutually inverse, no operation touches a dead node, and forward/backward "
-                   "iteration of a list yields exactly the abstract member list; signal call = callbacks of the live connections "
-                   "in connection order, left fold of the combiner, unregister exactly once. Tied to the code by a differential "
+                   "iteration of a list yields exactly the abstract member list, and each operation changes the member lists of all "
+                   "lists as the prose says (11 equations); iterator objects: ++/-- mutually inverse on every live node, begin()+i = i-th member, "
+                   "== is equality of positions, an iterator kept across a history stays usable while its node lives; signal call (int and "
+                   "void specialisation) = callbacks of the live connections in connection order, left fold of the combiner, unregister "
+                   "exactly once; a connection is alive iff exactly one owner slot (optional_auto_connection / container) holds it, over "
+                   "all owner histories; a call whose callbacks let go of connections or connect new ones never touches a destroyed "
+                   "connection unless a callback lets go of its own. Tied to the code by a differential "
                    "correspondence on operation histories (ASan/UBSan harness, raw prev_/next_ compared after every step)."),
     "level_note": ("Trusted: Lean kernel + propext/Classical.choice/Quot.sound; fidelity of the hand-written model outside the "
                    "exercised histories; harness and line protocol. No sorry/axiom/native_decide."),
